@@ -193,7 +193,7 @@ class C11(Check):
         srv = RandomUDSServer(plan["ecu_seed"], RandomUDSServer.RandomnessParameters(p_service=1.0, p_sub_function=0.3, p_identifier=0.7, p_correct_payload_format=1.0, p_session=0.3))
         srv.randomize()
         services = {s: {int(k): v for k, v in sv.items()} for s, sv in srv.services.items()}
-        n = rng.choice([1, 3, 8, 20, 40])
+        n = rng.choice([1, 3, 8, 20, 40] if tier == "quick" else [8, 40, 100])
         pdus = [p for p in gen_requests(rng, services, n, False) if p != "3e00"]
         faulty = rng.random() < 0.7
         hist: list[dict[str, Any]] = []
